@@ -529,11 +529,27 @@ impl Task for ExternalEquivalenceTask {
 
         let theory_translate = |program: asp::Program| {
             // TODO: allow more formula representations beyond tau-star
-            let mut theory = program
-                .tau_star()
-                .replace_placeholders(&placeholders)
+            let tau_star = program.tau_star().replace_placeholders(&placeholders);
+            let occurring_predicates = tau_star.predicates();
+
+            let mut theory = tau_star
                 .completion(self.user_guide.input_predicates())
                 .expect("tau_star did not create a completable theory");
+
+            // The completion is taken over all output predicates: an output predicate that
+            // does not occur in the program is empty in each of its stable models.
+            for predicate in self.user_guide.output_predicates() {
+                if !occurring_predicates.contains(&predicate) {
+                    theory.formulas.push(
+                        fol::Formula::BinaryFormula {
+                            connective: fol::BinaryConnective::Equivalence,
+                            lhs: predicate.to_formula().into(),
+                            rhs: fol::Formula::AtomicFormula(fol::AtomicFormula::Falsity).into(),
+                        }
+                        .universal_closure(),
+                    );
+                }
+            }
 
             if self.simplify {
                 let mut portfolio = [INTUITIONISTIC, HT, CLASSIC].concat().into_iter().compose();
